@@ -45,7 +45,7 @@ def shards(tier, seed):
     for c in lib.pick_curves(tier, seed, extra=3):
         sl = 4 if c.order.bit_length() > 300 else 2
         for i in range(sl):
-            out.append(("prod_%s_%d" % (c.name, i), dict(kind="prod", cname=c.name, nrand=4 if q else 40, sl=sl, si=i)))
+            out.append(("prod_%s_%d" % (c.name, i), dict(kind="prod", cname=c.name, nrand=4 if q else 40, nruns=10 if q else 400, sl=sl, si=i)))
     return out
 
 
@@ -220,6 +220,16 @@ def run(ctx, name, kind, **kw):
                5 * n + 1, 8 * n + 3, n * n + 1, (1 << (bits + 40)) + 1, (1 << (2 * bits)) + 1]
         for j in (1, 2, 7, 8, 31, 32, 63, 64, bits - 2, bits - 1, bits):
             ks += [1 << j, (1 << j) - 1, (1 << j) + 1]
+        # runs of one bits (and of zero bits) of machine-word-related lengths at word-related offsets: carries that travel across the chunks a
+        # digit recoding may work in
+        runs = []
+        for a_ in (63, 64, 65, 127, 128, 255, 256, 257, 259, 300):
+            for b_ in (0, 1, 62, 64, 127, 128, 254, 255, 256):
+                if a_ + b_ <= bits + 1:
+                    runs.append((((1 << a_) - 1) << b_) | rng.randrange(1 << b_) if b_ else (1 << a_) - 1)
+                    runs.append(((1 << (bits - 1)) | rng.getrandbits(bits - 1)) & ~((((1 << a_) - 1) << b_)) | 1)
+        rng.shuffle(runs)
+        ks += runs[:kw.get("nruns", 10)]
         for _ in range(kw["nrand"]):
             ks += [rng.randrange(1, n), rng.randrange(n, 4 * n), -rng.randrange(1, 2 * n)]
         G = dom.G
